@@ -34,7 +34,8 @@ THEOREMS = [
     "Escape.html2stan_encode", "Escape.sig_default_safe", "Escape.sig_default_text", "Escape.sig_default_nbsp_counterexample",
     "Escape.quote_clean", "Escape.url_href_verbatim", "Escape.node2stan_starttag_safe", "Escape.rstPrefix_prefixed",
     "Escape.mungeHref_fragment", "Escape.validIdentifierCss_clean",
-    "Escape.math_filter_cdata_counterexample", "Escape.math_filter_safe", "Escape.isMathHtml_elements", "Escape.math_filter_rejects",
+    "Escape.math_filter_cdata_counterexample", "Escape.math_filter_safe", "Escape.math_kept_html_escaped",
+    "Escape.isMathHtml_clean", "Escape.html2stan_directive_free", "Escape.directive_refused", "Escape.isMathHtml_elements", "Escape.math_filter_rejects",
     "Escape.introspected_sig_safe", "Escape.introspected_sigOld_counterexample",
     "Escape.sanitise_chars", "Escape.literal_holds_ok", "Escape.sanitise_guard", "Escape.sanitise_guard_partial",
     "Escape.sanitise_guard_counterexample",
@@ -442,7 +443,8 @@ def tree_flags(t) -> Tuple[bool, bool]:
         return True, "--" not in t[1]
     if t[0] != "E":
         return True, True
-    ok = (t[1] == "" or bool(namere.match(t[1]))) and all(namere.match(k) for k, _ in t[2])
+    # the attributes of a transparent tag are never written
+    ok = t[1] == "" or (bool(namere.match(t[1])) and all(namere.match(k) for k, _ in t[2]))
     cok = True
     for k in t[3]:
         a, b = tree_flags(k)
@@ -899,6 +901,53 @@ def run_builder_streams(ctx: Ctx) -> None:
         ctx.count("builder:html2stan-directives:" + ("data" if verdict == "same" else "executed"))
         if verdict != "same":
             ctx.fail("html2stan-runs-template-directives", {"html": frag}, f"html2stan({frag!r}): {verdict}")
+    # (1e) stanutils._refuse_template_directives on trees built from twisted objects vs the model's `directiveFree`
+    from pydoctor import stanutils as _su
+    from twisted.web.template import Tag as _Tag, slot as _slot, Comment as _Comment, CDATA as _CDATA
+    refuse = getattr(_su, "_refuse_template_directives")   # AttributeError on a tree before 8cc9d33: the stream is recorded as aborted
+
+    def tnode(depth: int):
+        k = rng.random()
+        if depth >= 3 or k < 0.3:
+            return rng.choice(["t", "t", "t", "o", "o", "s"] if rng.random() < 0.25 else ["t", "t", "o"])
+        name = "" if rng.random() < 0.06 else rng.choice(["span", "div", "b", "a"])
+        return ("(", name, rng.random() < 0.06, rng.random() > 0.06, [tnode(depth + 1) for _ in range(rng.choice([0, 1, 2, 3]))])
+
+    def tn_tokens(t) -> str:
+        if isinstance(t, str):
+            return t
+        return "( %s %d %d %s)" % (enc(t[1]), t[2], t[3], "".join(tn_tokens(c) + " " for c in t[4]))
+
+    def tn_real(t):
+        if t == "t":
+            return "text"
+        if t == "o":
+            return rng.choice([_Comment("c"), _CDATA("d")])
+        if t == "s":
+            return _slot("name")
+        tag = _Tag(t[1], attributes={"class": "c"} if t[3] else {"class": "c", "href": rng.choice([_slot("u"), [_Tag("b")], ["x"]])},
+                   children=[tn_real(c) for c in t[4]])
+        if t[2]:
+            tag.render = "footer"
+        return tag
+    reqs, impls, pay = [], [], []
+    fixed_t = [("(", "div", False, True, [("(", "span", True, True, ["t"])]), ("(", "div", False, True, ["s"]), ("(", "div", False, True, [("(", "", False, True, ["t"])]),
+               ("(", "div", False, True, [("(", "a", False, False, [])]), ("(", "div", False, True, ["o", ("(", "b", False, True, ["t"])]), ("(", "div", True, True, [])]
+    for i in range(n):
+        t = fixed_t[i] if i < len(fixed_t) else ("(", "div", False, True, [tnode(0) for _ in range(rng.choice([1, 2, 3]))])
+        try:
+            refuse(tn_real(t))
+            out = "ok"
+        except ValueError:
+            out = "ValueError"
+        except Exception as e:
+            out = exc_name(e)
+        reqs.append("escape directivefree " + tn_tokens(t))
+        impls.append(out)
+        pay.append({"op": "directivefree", "tree": t})
+        ctx.case(reqs[-1], True)
+        ctx.count("builder:_refuse_template_directives:" + out)
+    ctx.compare("builder:_refuse_template_directives", reqs, impls, pay)
     # (2) urllib.parse.quote and Documentable.url / taglink
     reqs, impls, pay = [], [], []
     for _ in range(5 * n):
